@@ -75,7 +75,16 @@ def _env():
         return Duck((k,))
 
     AA = Float[Duck, "a a"]
-    return dict(f2=f2, badret=badret, Duck=Duck, F=F, PT=PT, PU=PU, PA=PA, c=c, pb=pb, f=f, outer=outer, jaxtyped=jaxtyped, ctx_in_call=ctx_in_call, AA=AA)
+    # objects and annotation classes SHARED by all threads (W10)
+    shared = dict(
+        PTI=PyTree[int, "T"],
+        s_bad=(Duck((2,)), [Duck((3,))]),
+        s_ok=(Duck((2,)), [Duck((2,))]),
+        i_bad=(1, ("s", 2)),
+        i_ok=(1, (2, 3)),
+        i_other=[1, 2, 3],
+    )
+    return dict(shared=shared, f2=f2, badret=badret, Duck=Duck, F=F, PT=PT, PU=PU, PA=PA, c=c, pb=pb, f=f, outer=outer, jaxtyped=jaxtyped, ctx_in_call=ctx_in_call, AA=AA)
 
 
 _ENV = None
@@ -218,6 +227,29 @@ def workload(name):
 
         return body
 
+    def shared_objects():
+        """every thread checks THE SAME value objects against THE SAME annotation objects"""
+        sh = e["shared"]
+
+        def body():
+            out = []
+            with jaxtyped("context"):
+                out.append(c(sh["i_bad"], sh["PTI"]))
+                out.append(c(sh["i_ok"], sh["PTI"]))
+                out.append(c(sh["i_other"], sh["PTI"]))
+                out.append(c(sh["s_bad"], e["PA"]))
+                out.append(c(sh["s_ok"], e["PA"]))
+                out.append(c(sh["s_bad"], e["PT"]))
+                out.append(c(sh["s_ok"], e["PT"]))
+                out.append(pb())
+            out.append(c(sh["i_bad"], sh["PTI"]))
+            out.append(c(sh["s_bad"], e["PA"]))
+            return out
+
+        return body
+
+    if name == "W10":
+        return [shared_objects(), shared_objects()]
     if name == "W9":  # both threads make ill-typed decorated calls: error reporting overlaps with checking
         return [failing_calls(2), failing_calls(5)]
     if name == "W7":
@@ -319,9 +351,9 @@ def run(ctx):
     from .. import sched
 
     if ctx.quick:
-        plan = [("W1", 1, "lines"), ("W2", 1, "lines"), ("W3", 1, "storage"), ("W4", 1, "lines"), ("W5", 2, "storage"), ("W6", 1, "lines"), ("W7", 1, "storage"), ("W8", 1, "lines"), ("W9", 1, "storage")]
+        plan = [("W1", 1, "lines"), ("W2", 1, "lines"), ("W3", 1, "storage"), ("W4", 1, "lines"), ("W5", 2, "storage"), ("W6", 1, "lines"), ("W7", 1, "storage"), ("W8", 1, "lines"), ("W9", 1, "storage"), ("W10", 1, "lines")]
     else:
-        plan = [("W1", 2, "lines"), ("W2", 2, "storage"), ("W2", 1, "lines"), ("W3", 1, "lines"), ("W4", 1, "lines"), ("W4", 2, "storage"), ("W5", 2, "lines"), ("W6", 2, "storage"), ("W6", 1, "lines"), ("W7", 2, "storage"), ("W7", 1, "lines"), ("W8", 2, "storage"), ("W8", 1, "lines"), ("W9", 1, "lines"), ("W9", 2, "storage")]
+        plan = [("W1", 2, "lines"), ("W2", 2, "storage"), ("W2", 1, "lines"), ("W3", 1, "lines"), ("W4", 1, "lines"), ("W4", 2, "storage"), ("W5", 2, "lines"), ("W6", 2, "storage"), ("W6", 1, "lines"), ("W7", 2, "storage"), ("W7", 1, "lines"), ("W8", 2, "storage"), ("W8", 1, "lines"), ("W9", 1, "lines"), ("W9", 2, "storage"), ("W10", 1, "lines"), ("W10", 2, "storage")]
     jobs, meta = [], {}
     for wname, bound, mode in plan:
         name = wname
